@@ -15,7 +15,8 @@ import OpcuaModel.Model.CodecTy
   * `fuel` is the depth of nested coder calls (Go stack depth in units of one
     `decode`/`Decode` call); running out of it is the outcome `Fail.depth`.
   * Outcomes that are not a value or an error return are explicit:
-    `panicNegLen` (reflect.MakeSlice: negative len), `panicSlice`
+    `panicNegLen` (reflect.MakeSlice: negative len; no longer produced by the decoder since
+    `Variant.Decode` rejects array lengths below -1), `panicSlice`
     (reflect.Value.Slice out of bounds in `split`), `panicIndex` (`elems[0]` on
     an empty slice in `split`), `panicNilValue` (`Encode(nil)`), `panicNilPtr`
     (nil receiver in a hand-written `Encode`), `diverge` (`split` with step 0),
@@ -128,11 +129,6 @@ structure Env where
   limit : Option Nat
   /-- the extension object registry -/
   exts : List RegEntry
-  /-- proposed repair (C02): a Variant array length below -1 is an error instead of reaching `reflect.MakeSlice` -/
-  fixNegLen : Bool := false
-  /-- proposed repair (C02): the product of the Variant dimensions is compared with the array length without
-      `int32` wrap-around (and a nil array has no dimensions) -/
-  fixDims : Bool := false
 
 structure St where
   buf : Bytes
@@ -477,12 +473,11 @@ def decDims : Nat → Dec (List Nat)
       let ds ← decDims n
       pure (d :: ds)
 
-/-- `count := int32(1); for … { count *= dims[i] }` as a bit pattern -/
-def prod32 (ds : List Nat) : Nat := (ds.foldl (· * ·) 1) % 4294967296
-
-/-- `count != m.arrayLength` after `count *= dims[i]` in `int32` (the code), or the exact comparison (repair) -/
-def dimsMismatch (env : Env) (ds : List Nat) (alen : Nat) : Bool :=
-  if env.fixDims then decide (toInt32 alen < 0 ∨ ds.foldl (· * ·) 1 ≠ (toInt32 alen).toNat) else decide (prod32 ds ≠ alen)
+/-- the dimension check of `Variant.Decode`: the product of the dimensions (each ≥ 1), computed in 64 bits with
+    an early exit as soon as it exceeds the array length, must equal the array length; a null array (−1) cannot
+    have dimensions.  (Until the repair of C02.variant-dims-overflow the product was computed in `int32`.) -/
+def dimsMismatch (ds : List Nat) (alen : Nat) : Bool :=
+  decide (toInt32 alen < 0 ∨ ds.foldl (· * ·) 1 ≠ (toInt32 alen).toNat)
 
 def zeroVariant : Val := .variant 0 0 0 none ⟨0, 0⟩ .nil
 
@@ -513,7 +508,7 @@ def decVariant (env : Env) (rec : Ty → Dec Val) : Dec Val := do
     let alen ← readUInt 4
     let n := toInt32 alen
     if n > maxVariantArrayLength then Dec.fail .err
-    else if n < -1 then Dec.fail (if env.fixNegLen then .err else .panicNegLen)
+    else if n < -1 then Dec.fail .err
     else do
       let vals ← decVarElems env (decVarValue rec tid) n
       let valsNil := decide (n = -1)
@@ -522,7 +517,7 @@ def decVariant (env : Env) (rec : Ty → Dec Val) : Dec Val := do
       else do
         let dims ← optDec (has mask 0x40) (decDimList env dl) none
         let ds := dims.getD []
-        if dl > 0 ∧ dimsMismatch env ds alen then Dec.fail .err
+        if dl > 0 ∧ dimsMismatch ds alen then Dec.fail .err
         else if dl < 2 then pure (.variant mask alen dl dims ⟨tid, 1⟩ (.slice valsNil vals))
         else do
           let v ← splitM env vals valsNil ds 0 vals.length
